@@ -94,9 +94,11 @@ class XPathFunction(XPathToken):
         else:
             self.clear()
             for arg in args:
-                if isinstance(arg, XPathToken):
+                if isinstance(arg, XPathToken) and \
+                        (not isinstance(arg, XPathFunction) or arg.label in ('map', 'array')):
                     self._items.append(arg)
                 else:
+                    # a function item is an argument value, not an argument expression
                     value = self.validated_argument(arg, context)
                     # Accepts and wraps etree elements/documents, useful for external calls.
                     self._items.append(ValueToken(self.parser, value=value))
